@@ -357,6 +357,9 @@ func RunC13(ctx *core.Ctx) *core.Violation {
 	}
 	m := &c13{ctx: ctx}
 	size := t.Pick(0, 1, 2, 3, 4, 5, 7, 8, 13, 16, 64, 4096)
+	if t.Chance(1, 5) {
+		size = t.Pick(t.Draw(130), 255, 256, 1000, 9000)
+	}
 	defCtor := t.Chance(1, 12)
 	m.shortcut = t.Chance(1, 16)
 	n := drawLen(t)
